@@ -124,14 +124,13 @@ func checkC11(c *Ctx, r *Report) {
 		}
 		r2.guard(f, "NewStream(dest)", ns, "rsvp[dest.ID] present", edgeBool(lookupOK("rsvp", destID), true), nil)
 		below := func(key func(ssa.Value) bool) EdgePred {
-			return edgeCmp(func(b *ssa.BinOp) bool {
-				lk, ok := strip2(b.X).(*ssa.Lookup)
-				if !ok || b.Op != token.GEQ || !isLoadOfField(relT + ".conns")(strip2(lk.X)) || !key(lk.Index) {
-					return false
-				}
-				fl, _ := loadOfField(strip2(b.Y))
+			return edgeExcl(func(v ssa.Value) bool {
+				lk, ok := strip2(v).(*ssa.Lookup)
+				return ok && isLoadOfField(relT + ".conns")(strip2(lk.X)) && key(lk.Index)
+			}, func(v ssa.Value) bool {
+				fl, _ := loadOfField(strip2(v))
 				return fl != nil && fl.Name() == "MaxCircuits"
-			}, false)
+			}, ordEQ, ordGT)
 		}
 		r2.guard(f, "NewStream(dest)", ns, "conns[src] < MaxCircuits", below(srcV), nil)
 		r2.guard(f, "NewStream(dest)", ns, "conns[dest.ID] < MaxCircuits", below(destID), nil)
